@@ -8,8 +8,10 @@ From RecordUpdate Require Import RecordSet.
 Import RecordSetNotations.
 Local Open Scope N_scope.
 
+Section Safe.
+Variable Hh : N -> Prop.      (* which output-length hints (lzx->length as seen by the decoder) are considered *)
 Definition sres_ok {A} (Q : A -> lst -> Prop) (r : N + A * lst) : Prop := match r with inl e => e <> OOB | inr (a, s') => Q a s' end.
-Definition hs {A} (Q : A -> lst -> Prop) (m : lm A) (s : lst) : Prop := leaves (sres_ok Q) (m s).
+Definition hs {A} (Q : A -> lst -> Prop) (m : lm A) (s : lst) : Prop := leaves Hh (sres_ok Q) (m s).
 Lemma hs_bnd {A B} (Q1 : A -> lst -> Prop) (Q2 : B -> lst -> Prop) (m : lm A) (f : A -> lm B) s :
   hs Q1 m s -> (forall a s', Q1 a s' -> hs Q2 (f a) s') -> hs Q2 (bnd m f) s.
 Proof. intros Hm Hf. unfold hs, bnd. eapply leaves_sbind; [exact Hm|]. intros [e|[a s']] H; [constructor; exact H|apply Hf; exact H]. Qed.
@@ -26,7 +28,7 @@ Lemma hs_put (Q : unit -> lst -> Prop) x s : Q tt x -> hs Q (put x) s. Proof. in
 Lemma hs_weaken {A} (Q Q' : A -> lst -> Prop) m s : hs Q m s -> (forall a s', Q a s' -> Q' a s') -> hs Q' m s.
 Proof. intros H HQ. eapply leaves_weaken; [exact H|]. intros [e|[a s']] Hr; [exact Hr|apply HQ; exact Hr]. Qed.
 Lemma hs_do {A} (Q : A -> lst -> Prop) c (k : sanswer c -> lm A) s : (forall r, hs Q (k r) s) -> hs Q (fun s0 => SDo c (fun r => k r s0)) s.
-Proof. intro H. constructor. exact H. Qed.
+Proof. intro H. destruct c; constructor; intros; apply H. Qed.
 
 (* ---- what the reading half of the decoder leaves alone ---- *)
 Definition same (s s' : lst) : Prop :=
@@ -70,33 +72,34 @@ Lemma K_next : K next_byte. Proof. intros g s Hs. apply (hs_do _ SNext (fun b =>
 Lemma K_avail : K avail. Proof. intros g s Hs. apply (hs_do _ SAvail (fun b => ret tt)). intro b. apply hs_ret. exact Hs. Qed.
 Lemma K_get_hint : K get_hint. Proof. intros g s Hs. apply (hs_do _ SHint (fun b => ret b)). intro b. apply hs_ret. exact Hs. Qed.
 Lemma K_copy_in n : K (copy_in n). Proof. intros g s Hs. apply (hs_do _ (SCopyIn (N.to_nat n)) (fun b => ret b)). intro b. apply hs_ret. exact Hs. Qed.
-#[export] Hint Resolve K_next K_avail K_get_hint K_copy_in : kdb.
+Lemma K_write d : K (write d). Proof. intros g s Hs. apply (hs_do _ (SWrite d) (fun b => ret tt)). intro b. apply hs_ret. exact Hs. Qed.
+#[local] Hint Resolve K_next K_avail K_get_hint K_copy_in K_write : kdb.
 Lemma K_read_word : K read_word. Proof. unfold read_word. kk. Qed.
-#[export] Hint Resolve K_read_word : kdb.
+#[local] Hint Resolve K_read_word : kdb.
 Lemma K_ensure f : forall n, K (ensure f n). Proof. induction f as [|f IH]; intro n; cbn [ensure]; kk. Qed.
-#[export] Hint Resolve K_ensure : kdb.
+#[local] Hint Resolve K_ensure : kdb.
 Lemma K_peek n : K (peek n). Proof. unfold peek. kk. Qed.
 Lemma K_remove n : K (remove n). Proof. unfold remove. kk. Qed.
-#[export] Hint Resolve K_peek K_remove : kdb.
+#[local] Hint Resolve K_peek K_remove : kdb.
 Lemma K_read_bits n : K (read_bits n). Proof. unfold read_bits. kk. Qed.
-#[export] Hint Resolve K_read_bits : kdb.
+#[local] Hint Resolve K_read_bits : kdb.
 Lemma K_traverse f : forall t ms sym mask, K (traverse f t ms sym mask). Proof. induction f as [|f IH]; intros; cbn [traverse]; kk. Qed.
-#[export] Hint Resolve K_traverse : kdb.
+#[local] Hint Resolve K_traverse : kdb.
 Lemma K_read_huffsym t l tb ms : K (read_huffsym t l tb ms). Proof. unfold read_huffsym. kk. Qed.
-#[export] Hint Resolve K_read_huffsym : kdb.
+#[local] Hint Resolve K_read_huffsym : kdb.
 Lemma K_pre_lens n : forall x, K (pre_lens n x). Proof. induction n as [|n IH]; intro x; cbn [pre_lens]; kk. Qed.
-#[export] Hint Resolve K_pre_lens : kdb.
+#[local] Hint Resolve K_pre_lens : kdb.
 Lemma K_lens_loop f : forall w x last, K (lens_loop f w x last). Proof. induction f as [|f IH]; intros w x last; destruct w; cbn [lens_loop]; kk. Qed.
-#[export] Hint Resolve K_lens_loop : kdb.
+#[local] Hint Resolve K_lens_loop : kdb.
 Lemma K_read_lens w a b : K (read_lens w a b). Proof. unfold read_lens. kk. Qed.
-#[export] Hint Resolve K_read_lens : kdb.
+#[local] Hint Resolve K_read_lens : kdb.
 Lemma K_ali_lens n : forall i, K (ali_lens n i). Proof. induction n as [|n IH]; intro i; cbn [ali_lens]; kk. Qed.
 Lemma K_raw_bytes n : forall acc, K (raw_bytes n acc). Proof. induction n as [|n IH]; intro acc; cbn [raw_bytes]; kk. Qed.
-#[export] Hint Resolve K_ali_lens K_raw_bytes : kdb.
+#[local] Hint Resolve K_ali_lens K_raw_bytes : kdb.
 Lemma K_verbatim_header : K verbatim_header. Proof. unfold verbatim_header. kk. Qed.
-#[export] Hint Resolve K_verbatim_header : kdb.
+#[local] Hint Resolve K_verbatim_header : kdb.
 Lemma K_delta_extra_len : K delta_extra_len. Proof. unfold delta_extra_len. kk. Qed.
-#[export] Hint Resolve K_delta_extra_len : kdb.
+#[local] Hint Resolve K_delta_extra_len : kdb.
 
 (* ---- the block header also sets block_type / block_remaining; it leaves the window geometry alone ---- *)
 Definition sameB (s s' : lst) : Prop :=
@@ -135,7 +138,7 @@ Ltac kkB := repeat (match goal with
   | |- KpB _ _ _ => solve [apply KB_KpB; [first [solve [auto with kbdb] | apply K_KB; auto with kdb]|assumption]]
   end).
 Lemma KB_block_header : KB block_header. Proof. unfold block_header. kkB. Qed.
-#[export] Hint Resolve KB_block_header : kbdb.
+#[local] Hint Resolve KB_block_header : kbdb.
 
 (* ---- one symbol ---- *)
 Ltac rd := match goal with H : same ?g ?s |- hs _ (bnd _ _) ?s =>
@@ -239,3 +242,156 @@ Proof.
     + assert (tr_ = 0)%Z by lia. subst tr_. lia.
   - intros _ s' (P1 & P2). cbv beta. split; [exact P1|]. unsameB. unsameW. unsameF. repeat split; congruence.
 Qed.
+
+(* ---- a whole frame, while the output length is not known to the decoder (lzx->length = 0: every frame is a full one) ---- *)
+Lemma hs_hint_bnd {B} (Q : B -> lst -> Prop) (f : N -> lm B) s : (forall h, Hh h -> hs Q (f h) s) -> hs Q (bnd get_hint f) s.
+Proof. intro H. unfold hs, bnd, get_hint. cbn [sbind]. constructor. exact H. Qed.
+Lemma hs_write_bnd {B} (Q : B -> lst -> Prop) d (f : unit -> lm B) s : hs Q (f tt) s -> hs Q (bnd (write d) f) s.
+Proof. intro H. unfold hs, bnd, write. cbn [sbind]. constructor. intros []. exact H. Qed.
+Ltac rdB := match goal with H : sameB ?g ?s |- hs _ (bnd _ _) ?s =>
+  eapply hs_bnd; [apply (KB_KpB _ g s); [solve [kkB]|exact H]|let a := fresh "a" in let s' := fresh "s" in let H' := fresh "Hs" in intros a s' H'; cbv beta in H'] end.
+
+Section NoHint.
+Hypothesis Hh0 : forall h, Hh h -> h = 0.
+Definition FI (s : lst) : Prop := wposn s = fposn s /\ fposn s + 32768 <= wsize s /\ fposn s mod 32768 = 0 /\ wsize s mod 32768 = 0 /\ wsize s < 4294967296.
+
+Ltac Zify.zify_post_hook ::= Z.div_mod_to_equations.
+Lemma FI_step x ws fp : wsize x = ws -> wposn x = fp + 32768 -> fposn x = fp + 32768 -> fp + 32768 <= ws -> fp mod 32768 = 0 -> ws mod 32768 = 0 ->
+  ws < 4294967296 ->
+  FI (if fposn (if wposn x =? wsize x then x <| wposn := 0 |> else x) =? wsize (if wposn x =? wsize x then x <| wposn := 0 |> else x)
+      then (if wposn x =? wsize x then x <| wposn := 0 |> else x) <| fposn := 0 |>
+      else if wposn x =? wsize x then x <| wposn := 0 |> else x).
+Proof.
+  intros E1 E2 E3 L1 M1 M2 L2. unfold FI.
+  destruct (N.eqb_spec (wposn x) (wsize x)) as [Ew|Ew].
+  - replace (fposn (x <| wposn := 0 |>) =? wsize (x <| wposn := 0 |>)) with true.
+    2:{ symmetry. apply N.eqb_eq. change (fposn x = wsize x). lia. }
+    change (0 = 0 /\ 0 + 32768 <= wsize x /\ 0 mod 32768 = 0 /\ wsize x mod 32768 = 0 /\ wsize x < 4294967296). rewrite E1. repeat split; lia.
+  - replace (fposn x =? wsize x) with false by (symmetry; apply N.eqb_neq; lia).
+    rewrite E1, E2 in Ew. rewrite E1, E2, E3.
+    assert (N32 : 32768 <> 0) by discriminate.
+    destruct (proj1 (N.mod_divides fp 32768 N32) M1) as [c1 C1]. destruct (proj1 (N.mod_divides ws 32768 N32) M2) as [c2 C2].
+    repeat split; try lia.
+    replace (fp + 32768) with ((c1 + 1) * 32768) by lia. apply N.mod_mul. exact N32.
+Qed.
+
+Lemma frame_loop_safe : forall f ef ob s, FI s -> hs (fun _ s' => FI s' /\ err s' = err s) (frame_loop f ef ob) s.
+Proof.
+  induction f as [|f IH]; intros ef ob s HI; cbn [frame_loop]; [apply hs_fail; discriminate|].
+  gt. destruct (ef <=? frame s); [apply hs_ret; split; [exact HI|reflexivity]|].
+  assert (H0 : sameB s s) by apply sameB_refl.
+  rdB. gt. rdB. gt. rdB.
+  apply hs_hint_bnd. intros len0 Hl0. apply Hh0 in Hl0. subst len0. rdB.
+  apply hs_hint_bnd. intros len1 Hl1. apply Hh0 in Hl1. subst len1. gt.
+  change (negb (0 =? 0)) with false. cbn [andb]. cbv zeta.
+  destruct HI as (I1 & I2 & I3 & I4 & I5).
+  replace (s32 (u32 (Z.of_N (fposn s3) + Z.of_N FRAME_SIZE - Z.of_N (wposn s3)))) with 32768%Z.
+  2:{ replace (Z.of_N (fposn s3) + Z.of_N FRAME_SIZE - Z.of_N (wposn s3))%Z with 32768%Z; [reflexivity|].
+      change FRAME_SIZE with 32768. unsameB. lia. }
+  eapply hs_bnd; [apply todo_loop_safe|].
+  { unsameB. lia. }
+  { intros _. unsameB. lia. }
+  intros u s4 (W4 & F4). cbv beta. gt.
+  destruct (u32 (Z.of_N (wposn s4) - Z.of_N (fposn s4)) =? FRAME_SIZE) eqn:E1; cbn [negb]; [|apply hs_fail; discriminate].
+  assert (P4 : wposn s4 = fposn s + 32768).
+  { apply N.eqb_eq in E1. unfold u32 in E1. change FRAME_SIZE with 32768 in E1. unsameB. unsameF.
+    assert (Hd : ((Z.of_N (wposn s4) - Z.of_N (fposn s4)) mod 4294967296 = 32768)%Z) by lia. clear E1.
+    assert (Z.of_N (wposn s4) - Z.of_N (fposn s4) = 32768 \/ Z.of_N (wposn s4) - Z.of_N (fposn s4) = 32768 - 4294967296)%Z.
+    { set (d := (Z.of_N (wposn s4) - Z.of_N (fposn s4))%Z) in *. assert (-4294967296 < d < 4294967296)%Z by (unfold d; lia).
+      clearbody d. pose proof (Z.div_mod d 4294967296 ltac:(lia)) as Q. pose proof (Z.mod_pos_bound d 4294967296 ltac:(lia)). nia. }
+    lia. }
+  assert (G4 : sameB s4 s4) by apply sameB_refl.
+  rdB. gt. rdB. gt.
+  destruct (optr s6 =? oend s6); cbn [negb]; [|apply hs_fail; discriminate].
+  assert (C4 : ((FRAME_SIZE <? FRAME_SIZE) || (wsize s6 <? fposn s6 + FRAME_SIZE)) = false).
+  { change FRAME_SIZE with 32768. apply orb_false_iff. split; [reflexivity|]. apply N.ltb_ge. unsameB. unsameF. lia. }
+  rewrite C4.
+  match goal with |- hs _ (bnd (if ?b then _ else _) _) _ => destruct b end; apply hs_put_bnd; gt; apply hs_write_bnd; apply hs_modify_bnd; apply hs_modify_bnd; (eapply hs_weaken; [apply IH|]).
+  2,4: intros r s' [P1 P2]; cbv beta; split; [exact P1|]; rewrite P2; unsameB; unsameF; (transitivity (err s6); [destruct (wposn _ =? wsize _); destruct (fposn _ =? wsize _); reflexivity|congruence]).
+  all: apply (FI_step _ (wsize s) (fposn s)); try assumption.
+  all: unsameB; unsameF.
+  all: try (match goal with |- wsize _ = _ => transitivity (wsize s6); [reflexivity|congruence] end).
+  all: try (match goal with |- wposn _ = _ => transitivity (wposn s6); [reflexivity|congruence] end).
+  all: try (match goal with |- fposn _ = _ => transitivity (fposn s6 + FRAME_SIZE); [reflexivity|change FRAME_SIZE with 32768; congruence] end).
+Qed.
+
+(* one call of lzxd_decompress *)
+Lemma decompress_safe n s : FI s -> err s <> OOB -> hs (fun _ s' => FI s' /\ err s' = err s) (decompress n) s.
+Proof.
+  intros HI He. unfold decompress. gt.
+  destruct (err s =? 0) eqn:E0; cbn [negb]; [|apply hs_fail; exact He].
+  cbv zeta. assert (H0 : sameB s s) by apply sameB_refl.
+  eapply (hs_bnd (fun _ s1 => FI s1 /\ err s1 = err s)).
+  { destruct (0 <? N.min (oend s - optr s) n).
+    - apply hs_write_bnd. apply hs_modify. split; [exact HI|reflexivity].
+    - apply hs_ret. split; [exact HI|reflexivity]. }
+  intros u s1 [I1 E1]. cbv beta.
+  destruct (n - N.min (oend s - optr s) n =? 0); [apply hs_ret; split; assumption|].
+  gt. eapply hs_bnd; [apply frame_loop_safe; exact I1|]. intros rest s2 [I2 E2]. cbv beta.
+  destruct (rest =? 0); cbn [negb]; [apply hs_ret; split; [exact I2|congruence]|apply hs_fail; discriminate].
+Qed.
+End NoHint.
+End Safe.
+
+(* ---- the interpreter can only stop a decoder with its end-of-input status ---- *)
+Lemma ideal_stop {A} rule hint (p : sprog A) : forall s e s', ideal rule hint p s = (SStop e, s') -> e = eof_status rule.
+Proof.
+  induction p as [a|c k IH]; intros s e s' H; cbn [ideal] in H; [discriminate|]. destruct c.
+  - unfold ideal_next in H. destruct (irest s) as [|b r0]; [inversion H; reflexivity|]. exact (IH _ _ _ _ H).
+  - destruct (irest s) as [|b r0]; [inversion H; reflexivity|]. exact (IH _ _ _ _ H).
+  - destruct (ideal_take rule n s []) as [[l s1]|e1] eqn:T; [exact (IH _ _ _ _ H)|]. inversion H; subst. exact (take_stop _ _ _ _ _ T).
+  - exact (IH _ _ _ _ H).
+  - exact (IH _ _ _ _ H).
+Qed.
+
+Definition Hzero (h : N) : Prop := h = 0.
+Definition Inv (s : lst) : Prop := FI s /\ err s <> OOB.
+Theorem lzx_call_safe s i n st s' i' : Inv s -> lzx_call 0 s i n = (st, s', i') -> st <> OOB /\ Inv s'.
+Proof.
+  intros [HI He] H. unfold lzx_call in H.
+  destruct (ideal EofPad2 0 (decompress n s) i) as [r i1] eqn:E.
+  destruct r as [[e|[[] s1]]|e].
+  - pose proof (leaves_run Hzero _ EofPad2 0 _ eq_refl (decompress_safe Hzero (fun h Hh => Hh) n s HI He) _ _ _ E) as L. cbn in L.
+    inversion H; subst. split; [exact L|]. split; [exact HI|exact L].
+  - pose proof (leaves_run Hzero _ EofPad2 0 _ eq_refl (decompress_safe Hzero (fun h Hh => Hh) n s HI He) _ _ _ E) as L. cbn in L.
+    inversion H; subst. destruct L as [L1 L2]. split; [discriminate|]. split; [exact L1|congruence].
+  - apply ideal_stop in E. subst e. inversion H; subst. split; [discriminate|]. split; [exact HI|discriminate].
+Qed.
+
+Lemma lzx_calls_safe : forall reqs s i acc sts i', Inv s -> Forall (fun st => st <> OOB) acc -> lzx_calls 0 reqs s i acc = (sts, i') -> Forall (fun st => st <> OOB) sts.
+Proof.
+  induction reqs as [|n reqs IH]; intros s i acc sts i' HI Ha H; cbn [lzx_calls] in H.
+  - inversion H; subst. rewrite rev_append_rev, app_nil_r. apply Forall_rev. exact Ha.
+  - destruct (lzx_call 0 s i n) as [[st s1] i1] eqn:E. destruct (lzx_call_safe _ _ _ _ _ _ HI E) as [N1 I1].
+    apply (IH _ _ _ _ _ I1 (Forall_cons (P := fun st => st <> OOB) st N1 Ha) H).
+Qed.
+
+Lemma shiftl_mult wb : 15 <= wb -> N.shiftl 1 wb = 2 ^ (wb - 15) * 32768.
+Proof. intro H. rewrite N.shiftl_1_l. replace wb with ((wb - 15) + 15) at 1 by lia. rewrite N.pow_add_r. reflexivity. Qed.
+Lemma init_inv wb ri delta ref : 15 <= wb <= 25 -> Inv (lzx_init wb ri delta ref).
+Proof.
+  intro Hw. split; [|discriminate]. unfold FI.
+  change (0 = 0 /\ 0 + 32768 <= N.shiftl 1 wb /\ 0 mod 32768 = 0 /\ N.shiftl 1 wb mod 32768 = 0 /\ N.shiftl 1 wb < 4294967296).
+  rewrite shiftl_mult by lia. assert (1 <= 2 ^ (wb - 15)) by (apply N.lt_pred_le; cbn; apply N.neq_0_lt_0, N.pow_nonzero; discriminate).
+  assert (2 ^ (wb - 15) <= 2 ^ 10) by (apply N.pow_le_mono_r; lia). change (2 ^ 10) with 1024 in *.
+  repeat split; try lia. apply N.mod_mul. discriminate.
+Qed.
+
+(* every call of every sequence on every input, for every legal window size, while the output length is unknown to the decoder *)
+Theorem lzx_run_safe wb ri delta ref inp reqs sts out : 15 <= wb <= 25 -> lzx_run wb ri 0 delta ref inp reqs = (sts, out) -> Forall (fun st => st <> OOB) sts.
+Proof.
+  intros Hw H. unfold lzx_run in H.
+  destruct (lzx_calls 0 reqs (lzx_init wb ri delta ref) {| irest := inp ++ pad EofPad2; iout := [] |} []) as [sts0 i'] eqn:E.
+  inversion H; subst. exact (lzx_calls_safe _ _ _ _ _ _ (init_inv _ _ _ _ Hw) (Forall_nil _) E).
+Qed.
+
+(* the block loop alone, for every hint, end-of-input rule and input: from any state whose frame fits the window *)
+Theorem todo_loop_never_oob rule hint fuel todo s i r i' : wposn s <= wsize s -> ((0 < todo)%Z -> (Z.of_N (wposn s) + todo <= Z.of_N (wsize s))%Z) ->
+  ideal rule hint (todo_loop fuel todo s) i = (SVal r, i') ->
+  match r with inl e => e <> OOB | inr (_, s') => wposn s' <= wsize s' end.
+Proof.
+  intros Hw Hb E. pose proof (leaves_run (fun _ => True) _ rule hint _ I (todo_loop_safe (fun _ => True) fuel todo s Hw Hb) _ _ _ E) as L.
+  destruct r as [e|[u s']]; cbn in L; [exact L|exact (proj1 L)].
+Qed.
+(* a state outside the invariant, for the non-vacuity example of the ghost checks *)
+Definition bad_state : lst := lzx_init 17 0 true [] <| wposn := 131072 |> <| fposn := 131072 |>.
